@@ -125,6 +125,7 @@ func pipePredict(m Mach, bm *bondmachine.Bondmachine, inputs []uint64) ([]uint64
 	if err := vm.Launch_processors(emptyBox); err != nil {
 		return nil, false
 	}
+	defer stopVM(vm)
 	for i := 0; i < pipeBudget; i++ {
 		if vm.OutputsValid[m.Outputs-1] {
 			var r []uint64
